@@ -40,6 +40,17 @@ func c11Small() *Scenario {
 	s.Actions = streamActions(time.Second)
 	s.Actions = append(s.Actions, timeSteps(800, 700*time.Millisecond, 999_999_999*time.Nanosecond, 30*time.Second, 61*time.Second, 700*time.Second)...)
 	s.Actions = append(s.Actions, aroundZero()...)
+	// block-time gap 0 s: two operations on one stream in the same block
+	two := func(name string, a, b model.Msg) Action {
+		return Action{Name: name, Dt: 700 * time.Millisecond, Txs: func(*model.State) []model.Tx { return []model.Tx{{Msgs: []model.Msg{a}}, {Msgs: []model.Msg{b}}} }}
+	}
+	claim := model.Msg{Kind: model.StrClaim, From: "R1", To: "A"}
+	s.Actions = append(s.Actions,
+		two("claim(R1<-A);claim(R1<-A)", claim, claim),
+		two("claim(R1<-A);update(A->R1,@3)", claim, model.Msg{Kind: model.StrUpdate, From: "A", To: "R1", Rate: 3}),
+		two("update(A->R1,@3);claim(R1<-A)", model.Msg{Kind: model.StrUpdate, From: "A", To: "R1", Rate: 3}, claim),
+		two("topup(A->R1,65nund);claim(R1<-A)", model.Msg{Kind: model.StrTopUp, From: "A", To: "R1", Den: mc.Nund, Amt: "65"}, claim),
+	)
 	return s
 }
 
